@@ -191,11 +191,12 @@ class _VUptime:
 
 
 class _W:  # per-process harness state
-    ready = False
+    ready = None  # pid that initialised it
+    cache = {}
 
 
 def _init_worker():
-    if _W.ready:
+    if _W.ready == os.getpid():
         return
     d = common.scratch_dir("c14")
     _W.data = d
@@ -227,8 +228,7 @@ def _init_worker():
     # the running session (its own file lives outside the scanned directories)
     _W.hist = hj.JsonHistory(filename=os.path.join(sess, "xonsh-current.json"), gc=False, ts=[NOW, None], locked=True, env={})
     _W.xsh.history = _W.hist
-    _W.cache = {}
-    _W.ready = True
+    _W.ready = os.getpid()
     _selfcheck_format()
 
 
@@ -250,8 +250,10 @@ def _content(kind, cmds, locked, ts, name, pad, cut=None):
         if kind == "empty":
             data = b""
         else:
+            import xonsh.lib.lazyjson as xlj  # the real writer
+
             buf = io.StringIO()
-            _W.xlj.ljdump(_hist_dict(cmds, locked, ts, name, pad), buf, sort_keys=True)
+            xlj.ljdump(_hist_dict(cmds, locked, ts, name, pad), buf, sort_keys=True)
             data = buf.getvalue().encode("utf-8")
             if kind == "trunc":
                 data = data[: (len(data) // 2 if cut is None else cut)]
@@ -436,22 +438,28 @@ def _check_collection(item):
     evals = nontrivial = refusals = deletions = 0
     viols = {}
     files0, top = _materialise(states, mask, 0)
-    for pos in _boot_positions(files0, top, cfg["boots"]):
+    boots = cfg["boots"]
+    if boots == "ends-if-distinct":
+        boots = "ends" if mask == 0 else "live"
+    for pos in _boot_positions(files0, top, boots):
         boot = _boot_value(top, pos)
         for unit in _units_for(states, cfg):
             for pad in cfg["pads"] if unit == "b" else (0,):
                 files, _ = _materialise(states, mask, pad)
+                dirty = False
                 for limit in _limits(files, boot, unit, cfg["rich"]):
                     for force in (False, True):
-                        _materialise(states, mask, pad)
+                        if dirty:
+                            _materialise(states, mask, pad)
                         deleted, crash, refused = _gc_json((limit, unit), force, boot)
+                        dirty = bool(deleted or crash or pos > 0)  # stale locks are rewritten in place
                         evals += 1
-                        _, label = accept_sets(files, boot, unit, limit, force, primary_only=True)
+                        acc, label = accept_sets(files, boot, unit, limit, force, primary_only=True)
                         if label != "within-limit":
                             nontrivial += 1
                         refusals += bool(refused)
                         deletions += bool(deleted)
-                        bad = _judge(files, boot, unit, limit, force, deleted, crash, refused)
+                        bad = None if (deleted in acc and not crash) else _judge(files, boot, unit, limit, force, deleted, crash, refused)
                         if bad:
                             key = _key(bad[0], unit, limit, force)
                             if key not in viols:
@@ -474,13 +482,18 @@ def _describe(files, boot):
     )
 
 
-def _collections(nmax, max_corrupt, masks_mode):
-    """(states, tie mask) simplest first: by size, corrupt members last, distinct timestamps first."""
+def _collections(nmax, max_corrupt, masks_mode, narrow_corrupt=lambda n: False):
+    """(states, tie mask) simplest first: by size, corrupt members last, distinct timestamps first.
+    narrow_corrupt(n): collections of n files that contain a corrupt member take locked members with 2
+    commands only (a live locked file's command count never enters the collection)."""
     states_all = OK_STATES + CORRUPT_STATES
     for n in range(0, nmax + 1):
         mm = masks_mode(n)
         for states in itertools.product(states_all, repeat=n):
-            if sum(1 for s in states if s[0] != "ok") > max_corrupt(n):
+            ncorrupt = sum(1 for s in states if s[0] != "ok")
+            if ncorrupt > max_corrupt(n):
+                continue
+            if ncorrupt and narrow_corrupt(n) and any(s[0] == "ok" and s[2] and s[1] != 2 for s in states):
                 continue
             if mm == "all":
                 masks = range(0, 1 << max(0, n - 1))
@@ -495,41 +508,51 @@ def _collections(nmax, max_corrupt, masks_mode):
 # ---------------------------------------------------------------------------- truncation sweep
 
 
-def _check_truncations(_item=None):
+TRUNC_BASES = ((2, False), (1, True))
+TRUNC_CONFIGS = (("files", 1, True), ("commands", 1, False), ("files", 5, False))
+
+
+def _trunc_items(step=64):
+    items = []
+    for base_cmds, locked in TRUNC_BASES:
+        full = len(_content("ok", base_cmds, locked, NOW - 20.0, NAMES[1], 0))
+        for lo in range(1, full, step):
+            items.append((base_cmds, locked, lo, min(full, lo + step), full))
+    return items
+
+
+def _check_truncations(item):
     """Every truncation length of a genuine file as the middle member of [old, TRUNC, new]."""
-    _init_worker()
+    base_cmds, locked, lo, hi, full = item
     out = {"evals": 0, "nontrivial": 0, "viols": []}
     seen = {}
-    for base_cmds, locked in ((2, False), (1, True)):
-        full = len(_content("ok", base_cmds, locked, NOW - 20.0, NAMES[1], 0))
-        for cut in range(1, full):
-            for unit, limit, force in (("files", 1, True), ("commands", 1, False), ("files", 5, False)):
-                for pos in (0, 3):
-                    _clean_histdir()
-                    states = (("ok", 1, False), ("trunc", base_cmds, locked), ("ok", 1, False))
-                    files, top = _materialise(states, 0, 0, cut=cut)
-                    files[1]["locked"] = False  # unreadable: its lock flag is unknowable; either treatment passes
-                    boot = _boot_value(top, pos)
-                    deleted, crash, refused = _gc_json((limit, unit), force, boot)
-                    out["evals"] += 1
-                    out["nontrivial"] += limit < 5
-                    acc, _ = accept_sets(files, boot, unit, limit, force)
-                    # the damaged member may also be treated as a live locked file (its flag may still read true)
-                    ok = deleted in acc or (locked and (deleted - {NAMES[1]}) in acc and NAMES[1] not in deleted)
-                    if crash or not ok:
-                        clause = ("crash:" + crash.split(":")[0].strip()) if crash else "wrong-set"
-                        key = f"json-truncated:{clause}:{unit}"
-                        if key not in seen:
-                            seen[key] = {
-                                "key": key,
-                                "clause": clause,
-                                "case": _case(states, 0, pos, 0, unit, limit, force, cut=cut),
-                                "observed": {"deleted": sorted(deleted), "crash": crash, "refusal_warning": refused},
-                                "expected": {"acceptable_deletion_sets": sorted(sorted(a) for a in acc)},
-                                "note": f"member 'a' is a genuine {base_cmds}-command file cut to {cut} of {full} bytes",
-                                "n": 0,
-                            }
-                        seen[key]["n"] += 1
+    states = (("ok", 1, False), ("trunc", base_cmds, locked), ("ok", 1, False))
+    for cut in range(lo, hi):
+        for unit, limit, force in TRUNC_CONFIGS:
+            for pos in (0, 3):
+                _clean_histdir()
+                # an unreadable member is left alone or collected: both pass (see accept_sets); that also
+                # covers a damaged file whose 'locked' flag still reads true
+                files, top = _materialise(states, 0, 0, cut=cut)
+                boot = _boot_value(top, pos)
+                deleted, crash, refused = _gc_json((limit, unit), force, boot)
+                out["evals"] += 1
+                out["nontrivial"] += limit < 5
+                acc, _ = accept_sets(files, boot, unit, limit, force)
+                if crash or deleted not in acc:
+                    clause = ("crash:" + crash.split(":")[0].strip()) if crash else "wrong-set"
+                    key = f"json-truncated:{clause}:{unit}"
+                    if key not in seen:
+                        seen[key] = {
+                            "key": key,
+                            "clause": clause,
+                            "case": _case(states, 0, pos, 0, unit, limit, force, cut=cut),
+                            "observed": {"deleted": sorted(deleted), "crash": crash, "refusal_warning": refused},
+                            "expected": {"acceptable_deletion_sets": sorted(sorted(a) for a in acc)},
+                            "note": f"member 'a' is a genuine {base_cmds}-command file cut to {cut} of {full} bytes",
+                            "n": 0,
+                        }
+                    seen[key]["n"] += 1
     out["viols"] = list(seen.values())
     return out
 
@@ -554,6 +577,9 @@ _MULT = {  # independent table of what the documented unit names mean (None = co
 _RANGE = {"mon": (28 * 86400, 31 * 86400), "y": (365 * 86400, 366 * 86400)}
 
 
+FORM_NAMES = ("N unit", "Nunit", "padded-uppercase", "(int, unit)", "[str, Unit]", "(float, unit)", "bare-int", "bare-str")
+
+
 def _spellings(value, word):
     forms = [f"{value} {word}", f"{value}{word}", f"  {value}   {word.upper()} ", (value, word), [str(value), word.capitalize()], (float(value), word)]
     if word == "":
@@ -561,9 +587,23 @@ def _spellings(value, word):
     return forms
 
 
-def _check_spellings(_item=None):
-    _init_worker()
-    from xonsh.tools import HISTORY_UNITS, to_history_tuple
+def _parse_verdict(canon, word, value, form):
+    """(observed, expected text, ok) for to_history_tuple(form)."""
+    from xonsh.tools import to_history_tuple
+
+    words, typ = _MULT[canon]
+    mult = words[word]
+    try:
+        got = to_history_tuple(form)
+    except Exception as e:  # noqa: BLE001
+        return f"{type(e).__name__}: {e}", f"({value}*{mult}, {canon!r})", False
+    if mult is None:  # month / year: a convention, only range-checked
+        lo, hi = _RANGE["mon" if word.startswith("mon") else "y"]
+        return got, f"({lo * value}..{hi * value}, {canon!r})", got[1] == canon and lo * value <= got[0] <= hi * value
+    return got, f"({typ(value * mult)!r}, {canon!r})", tuple(got) == (typ(value * mult), canon) and type(got[0]) is typ
+
+
+def _check_spellings(only_canon):
 
     out = {"evals": 0, "nontrivial": 0, "viols": [], "spellings": 0}
     seen = {}
@@ -573,34 +613,23 @@ def _check_spellings(_item=None):
             seen[key] = {"key": key, "clause": clause, "case": case, "observed": observed, "expected": expected, "note": "", "n": 0}
         seen[key]["n"] += 1
 
-    known = {w for words, _ in _MULT.values() for w in words}
-    for w in sorted(set(HISTORY_UNITS) - known):
-        bad(f"spelling:unknown-unit-word:{w}", "spelling", {"part": "spelling-parse", "word": w, "value": 1, "form": 0}, "accepted by HISTORY_UNITS", "a documented unit name")
     states = (("ok", 2, False), ("ok", 1, False), ("ok", 1, True), ("ok", 3, False), ("ok", 1, False))
     for canon, (words, typ) in _MULT.items():
+        if canon != only_canon:
+            continue
         for word, mult in sorted(words.items()):
             for value in (0, 1, 2, 3):
                 for fi, form in enumerate(_spellings(value, word)):
                     out["evals"] += 1
                     out["spellings"] += 1
-                    case = {"part": "spelling-parse", "word": word, "value": value, "form": fi}
-                    try:
-                        got = to_history_tuple(form)
-                    except Exception as e:  # noqa: BLE001
-                        bad(f"spelling:rejected:{canon}:form{fi}", "spelling", case, f"{type(e).__name__}: {e}", f"({value}*{mult}, {canon!r})")
-                        continue
-                    if mult is None:
-                        lo, hi = _RANGE["mon" if word.startswith("mon") else "y"]
-                        ok = got[1] == canon and lo * value <= got[0] <= hi * value
-                        exp = f"({lo * value}..{hi * value}, {canon!r})"
-                    else:
-                        ok = tuple(got) == (typ(value * mult), canon) and type(got[0]) is typ
-                        exp = f"({typ(value * mult)!r}, {canon!r})"
+                    case = {"part": "spelling-parse", "canon": canon, "word": word, "value": value, "form": fi}
+                    got, exp, ok = _parse_verdict(canon, word, value, form)
                     if not ok:
-                        bad(f"spelling:value:{canon}:{word or 'bare'}", "spelling", case, repr(got), exp)
+                        kind = "rejected" if isinstance(got, str) else "value"
+                        bad(f"spelling:{kind}:{canon}:{word or 'bare'}:{FORM_NAMES[fi]}", "spelling", case, repr(got), exp)
                         continue
                     # the GC obeys the spelled limit exactly as it obeys the canonical tuple (small multipliers only)
-                    if mult is None or mult > 60 or value == 0 and fi > 1:
+                    if mult is None or mult > 1024 or value == 0 and fi > 1:
                         continue
                     for via_env in (False, True):
                         for force in (False, True):
@@ -613,8 +642,16 @@ def _check_spellings(_item=None):
                             out["nontrivial"] += 1
                             verdict = _judge(files, boot, canon, limit, force, deleted, crash, refused)
                             if verdict:
+                                # the same failure with the canonical tuple is the collector's defect, not the spelling's
+                                _clean_histdir()
+                                _materialise(states, 0, 0)
+                                v2 = _judge(files, boot, canon, limit, force, *_gc_json((limit, canon), force, boot))
+                                if v2 and v2[0] == verdict[0]:
+                                    key = _key(verdict[0], canon, limit, force)
+                                else:
+                                    key = f"spelling-gc:{verdict[0]}:{canon}:{FORM_NAMES[fi]}:{'via-env' if via_env else 'via-size-arg'}"
                                 bad(
-                                    f"spelling-gc:{verdict[0]}:{canon}:{'limit=0' if limit == 0 else 'limit>0'}:{'forced' if force else 'unforced'}",
+                                    key,
                                     verdict[0],
                                     _case(states, 0, 0, 0, canon, limit, force, spelled=form if isinstance(form, (str, int)) else list(form), via_env=via_env),
                                     {"deleted": sorted(deleted), "crash": crash, "refusal_warning": refused},
@@ -647,9 +684,16 @@ def sqlite_accept(rows, keep):
     return acc
 
 
+def _orders(n, all_orders):
+    if all_orders:
+        return list(itertools.permutations(range(n)))
+    ident = tuple(range(n))
+    rots = {ident[i:] + ident[:i] for i in range(n)} | {ident[::-1]} | {tuple(sorted(ident, key=lambda i: (i % 2, i)))}
+    return sorted(rots)
+
+
 def _check_sqlite(item):
-    n, mask = item
-    _init_worker()
+    n, mask, orders = item
     hsq = _W.hsq
     out = {"evals": 0, "nontrivial": 0, "viols": []}
     seen = {}
@@ -658,7 +702,7 @@ def _check_sqlite(item):
         groups.append(0 if i == 0 else groups[-1] + (0 if (mask >> (i - 1)) & 1 else 1))
     rows = [(f"r{i}", NOW - 100.0 + 10.0 * g) for i, g in enumerate(groups)]
     fn = os.path.join(_W.data, "xonsh-history.sqlite")
-    for perm in itertools.permutations(range(n)):
+    for perm in orders:
         for keep in range(0, 7):
             for suffix in ("", "-wal", "-shm"):
                 if os.path.exists(fn + suffix):
@@ -709,6 +753,11 @@ def _check_sqlite(item):
 # ============================================================================ driver
 
 
+def _dispatch(work):
+    kind, item = work
+    return {"coll": _check_collection, "trunc": _check_truncations, "spell": _check_spellings, "sqlite": _check_sqlite}[kind](item)
+
+
 def _merge(ctx, results, totals):
     for r in results:
         totals["evals"] += r["evals"]
@@ -725,32 +774,48 @@ def run(ctx):
     global _CFG
     if ctx.thorough:
         nmax = 5
-        _CFG = {n: {"boots": "all", "pads": (0, 1), "rich": True} for n in range(0, 5)}
-        _CFG[5] = {"boots": "ends", "pads": (0,), "rich": False}
-        max_corrupt = lambda n: 2 if n <= 4 else 0  # noqa: E731
-        masks_mode = lambda n: "all" if n <= 4 else "some"  # noqa: E731
+        _CFG = {n: {"boots": "all", "pads": (0, 1), "rich": True} for n in range(0, 4)}
+        _CFG[4] = {"boots": "ends-if-distinct", "pads": (0,), "rich": False, "narrow": True}
+        _CFG[5] = {"boots": "live", "pads": (0,), "rich": False, "narrow": True}
+        max_corrupt = lambda n: 2 if n <= 3 else 1  # noqa: E731
+        masks_mode = lambda n: "all" if n <= 4 else "distinct"  # noqa: E731
+        narrow_corrupt = lambda n: n >= 5  # noqa: E731
+        sqlite_all_orders = 5
     else:
         nmax = 4
-        _CFG = {n: {"boots": "all", "pads": (0, 1), "rich": True} for n in range(0, 4)}
-        _CFG[4] = {"boots": "ends", "pads": (0,), "rich": False}
+        _CFG = {n: {"boots": "all", "pads": (0, 1), "rich": True} for n in range(0, 3)}
+        _CFG[3] = {"boots": "all", "pads": (0,), "rich": False, "narrow": True}
+        _CFG[4] = {"boots": "live", "pads": (0,), "rich": False, "narrow": True}
         max_corrupt = lambda n: 1  # noqa: E731
-        masks_mode = lambda n: "all" if n <= 3 else "some"  # noqa: E731
-    colls = list(_collections(nmax, max_corrupt, masks_mode))
-    ctx.log(f"{len(colls)} file collections (<= {nmax} files)")
+        masks_mode = lambda n: "all" if n <= 3 else "distinct"  # noqa: E731
+        narrow_corrupt = lambda n: n >= 3  # noqa: E731
+        sqlite_all_orders = 4
+    colls = list(_collections(nmax, max_corrupt, masks_mode, narrow_corrupt))
+    sq_items = []
+    for n in range(0, 6):
+        orders = _orders(n, n <= sqlite_all_orders)
+        for mask in range(0, 1 << max(0, n - 1)):
+            for lo in range(0, len(orders), 12):
+                sq_items.append((n, mask, orders[lo : lo + 12]))
+    tr_items = _trunc_items()
+    ctx.log(f"{len(colls)} file collections (<= {nmax} files), {len(tr_items)} truncation ranges, {len(_MULT)} unit families, {len(sq_items)} sqlite table batches")
+    # one heterogeneous work list -> one set of workers (each loads one xonsh session)
+    work = [("sqlite", it) for it in sq_items] + [("spell", c) for c in _MULT] + [("trunc", it) for it in tr_items] + [("coll", it) for it in colls]
+    res = common.pmap(_dispatch, work, ctx.jobs, chunk=4, init=_init_worker, seed=ctx.seed)
     totals = {"evals": 0, "nontrivial": 0}
-    res = common.pmap(_check_collection, colls, ctx.jobs, chunk=8, init=_init_worker, seed=ctx.seed)
-    _merge(ctx, res, totals)
-    json_runs = totals["evals"]
-    ctx.log(f"json GC runs: {json_runs}")
-    aux = common.pmap(_check_truncations, [0], 1) + common.pmap(_check_spellings, [0], 1)
-    _merge(ctx, aux, totals)
-    sq_items = [(n, mask) for n in range(0, 6) for mask in range(0, 1 << max(0, n - 1))]
-    sq = common.pmap(_check_sqlite, sq_items, ctx.jobs, chunk=1, seed=ctx.seed)
     sq_tot = {"evals": 0, "nontrivial": 0}
-    _merge(ctx, sq, sq_tot)
+    aux_tot = {"evals": 0, "nontrivial": 0}
+    # report collections first (simplest-first), then the auxiliary sweeps
+    _merge(ctx, [r for (k, _), r in zip(work, res) if k == "coll"], totals)
+    json_runs = totals["evals"]
+    _merge(ctx, [r for (k, _), r in zip(work, res) if k in ("trunc", "spell")], aux_tot)
+    _merge(ctx, [r for (k, _), r in zip(work, res) if k == "sqlite"], sq_tot)
+    for k in ("evals", "nontrivial", "spellings"):
+        totals[k] = totals.get(k, 0) + aux_tot.get(k, 0)
+    ctx.log(f"json GC runs: {json_runs} (+{aux_tot['evals']} truncation/spelling), sqlite runs: {sq_tot['evals']}")
     for it in common.pick_samples(colls, ctx.seed, 6):
         ctx.sample({"files_oldest_first": [list(s) for s in it[0]], "tie_mask": it[1]})
-    ctx.sample({"sqlite_rows_tie_mask": list(sq_items[-1]), "keep": "0..6", "insert_orders": "all permutations"})
+    ctx.sample({"sqlite_rows": sq_items[-1][0], "tie_mask": sq_items[-1][1], "keep": "0..6", "insert_orders": [list(o) for o in sq_items[-1][2][:3]]})
     ctx.coverage.update(
         evaluations=totals["evals"] + sq_tot["evals"],
         distinct_nontrivial=totals["nontrivial"] + sq_tot["nontrivial"],
@@ -807,15 +872,12 @@ def replay(rec):
         print("expected one of   :", sorted(sorted(a) for a in acc))
         return 0 if left in acc else 1
     if part == "spelling-parse":
-        from xonsh.tools import to_history_tuple
-
         form = _spellings(case["value"], case["word"])[case["form"]]
-        try:
-            got = to_history_tuple(form)
-        except Exception as e:  # noqa: BLE001
-            got = f"{type(e).__name__}: {e}"
-        print(f"to_history_tuple({form!r}) -> {got!r}; expected {rec.get('expected')}")
-        return 1 if got != rec.get("expected") else 0
+        got, exp, ok = _parse_verdict(case["canon"], case["word"], case["value"], form)
+        print(f"to_history_tuple({form!r})")
+        print("observed:", repr(got))
+        print("expected:", exp)
+        return 0 if ok else 1
     states = tuple(tuple(s) for s in case["files"])
     _clean_histdir()
     files, top = _materialise(states, case["ties"], case["pad"], cut=case.get("cut"))
